@@ -1,77 +1,51 @@
 (** C04 - executable comparison of the taint model with what the harness found
-    in the real database after every committed transaction.
+    in the real database after every call.
 
-    The harness (harness/cmd/c04) walks the bucket tree of the address
-    manager's namespace, recognises every key (fixed name, number, scope,
-    account name, sha256 of the id of an address it knows), splits every value
-    into its fields and classifies each field: sealed (and under which key it
-    opens: the harness derives the master keys from the passphrases and the
-    stored parameters, opens the crypto keys with them, and also tries the
-    all-zero key), hashed, or clear, with lengths.  Here the same shape is
-    computed from the model's terms.  Only property-relevant facts are
-    compared: which rows and fields exist, how each is protected, and the
-    plaintext length - no byte offsets, no values. *)
+    The harness (harness/cmd/c04) holds every passphrase.  After every call
+    it walks all rows of the database, finds every sealed field (the fields
+    the layouts of db.go name, and anything else that opens), OPENS it with
+    every key it can derive itself - public passphrase -> master public key
+    -> crypto public key; private passphrase -> master private key -> crypto
+    private key / stored script key; the all-zero key - and classifies the
+    PLAINTEXT by content (which secret / public item of the run it is).  One
+    observed fact = (slot of the row the field sits in, row type tag, key
+    that opens it, class of the plaintext).
+
+    Here the same facts are computed from the model's disk.  Compared - and
+    nothing else - is what the secrecy theorems depend on:
+      - the facts of the rows an operation changed are facts of the model's
+        disk, and at the complete looks (creation, conversion, last call)
+        the two sets of facts are equal: what is sealed where, under which
+        key, is what the model says (the model's keys and plaintext classes
+        come from the table regenerated from the source, Generated/TaintSites.v);
+      - the watching-only flag;
+      - Lock / Unlock / Open change no row;
+      - the answers of the private accessors of a reopened watching-only manager.
+    Not compared: row counts, clear-text metadata rows, byte lengths, rows or
+    sealed blobs the model does not know (those are judged by the harness's
+    oracle alone: no secret may be recoverable from them), and the outcome of
+    a call the implementation REFUSES (the model then takes the refusal: a
+    refused call writes nothing). *)
 From Coq Require Import String.
 From Verif Require Import Base.Prelude Addr.Taint.
 From Verif Require Generated.TaintSites.
 Local Open Scope N_scope.
 
-Inductive hkey :=
-| HStr (s : string) | HNum (n : N) | HAddr (id : addrid) | HName (id len : N) | HScope (s : scope) | HOther.
-
 (** which key opens a sealed field *)
 Inductive hseal := LMasterPub | LMasterPriv | LCryptoPub | LCryptoPriv | LScriptStored | LZero | LNone.
 
-Inductive hfield := HSealed (k : hseal) (plen : N) | HHashed | HClear (len : N).
+Record fact := { f_slot : slot; f_tag : N; f_key : hseal; f_content : content }.
 
-Record hrow := { h_path : list seg; h_key : hkey; h_val : list hfield }.
-
-Definition hkey_eq_dec : forall a b : hkey, {a = b} + {a <> b}.
-Proof. decide equality; try apply N.eq_dec; try apply scope_eq_dec; try apply addrid_eq_dec; apply string_dec. Defined.
+Definition slot_eq_dec : forall a b : slot, {a = b} + {a <> b}.
+Proof. decide equality; apply Bool.bool_dec. Defined.
 Definition hseal_eq_dec : forall a b : hseal, {a = b} + {a <> b}.
 Proof. decide equality. Defined.
-Definition hfield_eq_dec : forall a b : hfield, {a = b} + {a <> b}.
-Proof. decide equality; try apply N.eq_dec; apply hseal_eq_dec. Defined.
-Definition hrow_eq_dec : forall a b : hrow, {a = b} + {a <> b}.
-Proof.
-  decide equality; [apply (list_eq_dec hfield_eq_dec)|apply hkey_eq_dec|apply (list_eq_dec seg_eq_dec)].
-Defined.
+Definition content_eq_dec : forall a b : content, {a = b} + {a <> b}.
+Proof. decide equality. Defined.
+Definition fact_eq_dec : forall a b : fact, {a = b} + {a <> b}.
+Proof. decide equality; try apply N.eq_dec; [apply content_eq_dec|apply hseal_eq_dec|apply slot_eq_dec]. Defined.
 
-Definition hrow_eqb (a b : hrow) : bool := if hrow_eq_dec a b then true else false.
-Definition hslot_eqb (a b : list seg * hkey) : bool :=
-  (if list_eq_dec seg_eq_dec (fst a) (fst b) then true else false)
-  && (if hkey_eq_dec (snd a) (snd b) then true else false).
-
-(* ---- lengths of atoms as the code serialises them ----------------------- *)
-
-Definition strlen (s : string) : N := N.of_nat (String.length s).
-
-Definition alen (a : atom) : N :=
-  match a with
-  | SMasterXprv | SCoinXprv _ | SAcctXprv _ _ => 111   (* ExtendedKey.String() *)
-  | PMasterXpub | PCoinXpub _ | PAcctXpub _ _ | PImpXpub _ => 111
-  | SImpPriv _ | SAddrPriv _ | SKeyPriv | SKeyScriptStored | PKeyPub | SSeed => 32
-  | SScript _ len | PScript _ len => len
-  | SPass _ _ => 0
-  | PPubKey _ c => if c then 33 else 65
-  | PAddrId (AScr _ hlen) => hlen
-  | PAddrId _ => 20
-  | UStr s => strlen s
-  | UNum _ => 4
-  | UFlag _ | UTag _ => 1
-  | UName _ len => 4 + len
-  | UScope _ => 8
-  | USalt _ _ => 32
-  end.
-
-Fixpoint tlen (t : term) : N :=
-  match t with
-  | Enc _ t' => 40 + tlen t'         (* 24 nonce + 16 tag + plaintext *)
-  | Hash _ | Kdf _ => 32
-  | Clear a => alen a
-  | Cat a b => tlen a + tlen b
-  | Const n => n
-  end.
+Definition fact_eqb (a b : fact) : bool := if fact_eq_dec a b then true else false.
 
 Definition seal_label (k : keyid) : hseal :=
   match k with
@@ -82,89 +56,144 @@ Definition seal_label (k : keyid) : hseal :=
   | KCryptoScript => if TaintSites.unlock_decrypts_script_key then LScriptStored else LZero
   end.
 
-Definition field_of (t : term) : hfield :=
+(** class of a stored atom, as the harness would classify its bytes *)
+Definition content_of_atom (a : atom) : content :=
+  match a with
+  | SMasterXprv => CtMasterXprv
+  | PMasterXpub => CtMasterXpub
+  | SCoinXprv _ => CtCoinXprv
+  | PCoinXpub _ => CtCoinXpub
+  | SAcctXprv _ _ => CtAcctXprv
+  | PAcctXpub _ _ => CtAcctXpub
+  | PImpXpub _ => CtImpXpub
+  | SImpPriv _ | SAddrPriv _ => CtPrivKey
+  | PPubKey _ _ => CtPubKey
+  | PAddrId _ => CtAddrId
+  | SScript _ _ => CtSecretScript
+  | PScript _ _ => CtPublicScript
+  | PKeyPub => CtKeyPub
+  | SKeyPriv => CtKeyPriv
+  | SKeyScriptStored => CtKeyScript
+  | SPass _ _ => CtPassphrase
+  | SSeed => CtSeed
+  | _ => CtUnknown
+  end.
+
+(** the fact of one field, if it is a sealing *)
+Definition fact_of (l : slot) (tag : N) (t : term) : list fact :=
   match t with
-  | Enc k t' => HSealed (seal_label k) (tlen t')
-  | Hash _ | Kdf _ => HHashed
-  | _ => HClear (tlen t)
+  | Enc k (Clear a) => [{| f_slot := l; f_tag := tag; f_key := seal_label k; f_content := content_of_atom a |}]
+  | Enc k _ => [{| f_slot := l; f_tag := tag; f_key := seal_label k; f_content := CtUnknown |}]
+  | _ => []
   end.
 
-(** adjacent clear fields are one clear field; empty ones vanish *)
-Fixpoint merge (l : list hfield) : list hfield :=
-  match l with
-  | [] => []
-  | HClear a :: rest =>
-    match merge rest with
-    | HClear b :: r' => HClear (a + b) :: r'
-    | r' => if a =? 0 then r' else HClear a :: r'
-    end
-  | x :: rest => x :: merge rest
+Definition str_is (k : term) (s : string) : bool :=
+  match k with Clear (UStr s') => if string_dec s s' then true else false | _ => false end.
+
+(** the sealed fields of a row, by the layouts of db.go *)
+Definition row_facts (r : row) : list fact :=
+  match r_path r, r_val r with
+  | [BMain], [t] =>
+    if str_is (r_key r) "mhdpriv" then fact_of LMhdPriv 0 t
+    else if str_is (r_key r) "mhdpub" then fact_of LMhdPub 0 t
+    else if str_is (r_key r) "cpub" then fact_of LCPub 0 t
+    else if str_is (r_key r) "cpriv" then fact_of LCPriv 0 t
+    else if str_is (r_key r) "cscript" then fact_of LCScript 0 t
+    else []
+  | [BScope; BScopeOf _], [t] =>
+    if str_is (r_key r) "ctpub" then fact_of LCtPub 0 t
+    else if str_is (r_key r) "ctpriv" then fact_of LCtPriv 0 t
+    else []
+  | [BScope; BScopeOf _; BAcct], Clear (UTag 0) :: _ :: pub :: _ :: priv :: _ =>
+    fact_of LAcctPub 0 pub ++ fact_of LAcctPriv 0 priv
+  | [BScope; BScopeOf _; BAcct], Clear (UTag 1) :: _ :: pub :: _ =>
+    fact_of LWatchAcctPub 1 pub
+  | [BScope; BScopeOf _; BAddr], [Clear (UTag 1); _; _; pub; _; priv] =>
+    fact_of LImpPub 1 pub ++ fact_of LImpPriv 1 priv
+  | [BScope; BScopeOf _; BAddr], [Clear (UTag 2); _; _; hs; _; scr] =>
+    fact_of LScrHash 2 hs ++ fact_of (LScrScript true) 2 scr
+  | [BScope; BScopeOf _; BAddr], [Clear (UTag t); _; _; Clear (UFlag sec); _; hs; _; scr] =>
+    fact_of LScrHash t hs ++ fact_of (LScrScript sec) t scr
+  | _, _ => []
   end.
 
-Definition key_of (t : term) : hkey :=
-  match t with
-  | Clear (UStr s) => HStr s
-  | Clear (UNum n) => HNum n
-  | Clear (UName i l) => HName i l
-  | Clear (UScope s) => HScope s
-  | Hash (Clear (PAddrId id)) => HAddr id
-  | _ => HOther
-  end.
+Definition disk_facts (d : disk) : list fact := flat_map row_facts d.
 
-Definition hrow_of (r : row) : hrow :=
-  {| h_path := r_path r; h_key := key_of (r_key r); h_val := merge (map field_of (r_val r)) |}.
+Definition fact_in (l : list fact) (f : fact) : bool := existsb (fact_eqb f) l.
+Definition facts_subset (a b : list fact) : bool := forallb (fact_in b) a.
 
-Definition norm (r : hrow) : hrow := {| h_path := h_path r; h_key := h_key r; h_val := merge (h_val r) |}.
+(* ---- one case = one history with the observation after every call -------- *)
 
-(* ---- one case = one history with the observation after every operation -- *)
+Inductive answer := AWatchingOnly | ALocked | AError | AServed.
 
 Record hobs := {
-  o_ok : bool;                              (* the call succeeded and its transaction committed *)
-  o_nrows : N;                              (* rows in the namespace after it *)
-  o_changed : list hrow;                    (* rows whose bytes changed or appeared *)
-  o_deleted : list (list seg * hkey);       (* rows that disappeared *)
-  o_full : option (list hrow)               (* complete dump (first, conversion and last commit) *)
+  o_ok : bool;                        (* the call succeeded and its transaction committed *)
+  o_wo : bool;                        (* Manager.WatchOnly() after the call *)
+  o_nchanged : N;                     (* rows that changed, appeared or disappeared *)
+  o_facts : list fact;                (* facts of the rows that changed *)
+  o_full : option (list fact);        (* facts of all rows (creation, conversion, last call) *)
+  o_api : list (api_call * answer)    (* reopened watching-only manager: answers of the private accessors *)
 }.
 
 Definition tcase := list (op * hobs).
 
 (** failure codes
-    1 success/failure of the call differs      2 number of rows differs
-    3 a changed row is not what the model holds 4 a deleted row is still in the model
-    5 the complete dump differs                 6 an unrecognised key or an unopenable sealed field
-    7 Lock / Unlock / Open changed the database *)
+    1 the implementation committed a call the model refuses
+    3 a fact of a changed row is not a fact of the model's disk
+    5 complete look: the facts differ (either direction)
+    7 Lock / Unlock / Open changed the database
+    8 the watching-only flag differs
+    9 an accessor of the watching-only manager answers differently *)
 Definition no_disk_op (o : op) : bool :=
   match o with OLock | OUnlock _ | OReopen => true | _ => false end.
 
-Definition well_formed (r : hrow) : bool :=
-  match h_key r with HOther => false | _ =>
-    forallb (fun f => match f with HSealed LNone _ => false | _ => true end) (h_val r) end.
+Definition answer_matches (m : api_result) (a : answer) : bool :=
+  match m, a with
+  | Served, AServed => true
+  | Served, _ => false
+  | _, AServed => false
+  | _, _ => true                       (* both refuse *)
+  end.
 
-Definition check_obs (op0 : op) (st : state) (ok : bool) (o : hobs) : list nat :=
-  if negb (Bool.eqb ok (o_ok o)) then [1%nat]
-  else if negb ok then []
+Definition api_matches (st : state) (ca : api_call * answer) : bool :=
+  let '(c, a) := ca in
+  answer_matches (api st c) a
+  && match c, api st c with
+     | CUnlock, ErrWatchingOnly => match a with AWatchingOnly => true | _ => false end
+     | _, _ => true
+     end.
+
+Definition check_obs (op0 : op) (st : state) (o : hobs) : list nat :=
+  let m := disk_facts (dsk st) in
+  (if facts_subset (o_facts o) m then [] else [3%nat])
+  ++ (match o_full o with
+      | None => []
+      | Some f => if facts_subset f m && facts_subset m f then [] else [5%nat]
+      end)
+  ++ (if no_disk_op op0 && o_ok o && negb (o_nchanged o =? 0) then [7%nat] else [])
+  ++ (if negb (created st) || Bool.eqb (wo st) (o_wo o) then [] else [8%nat])
+  ++ (if forallb (api_matches st) (o_api o) then [] else [9%nat]).
+
+(** what the model does on a call, given what the implementation did: a
+    call the implementation refused writes nothing (a refused Unlock locks). *)
+Definition refused (o : op) : op := match o with OUnlock _ => OUnlock false | _ => OLock end.
+
+Definition follow (T : table) (sp : bool) (st : state) (o : op) (impl_ok : bool) : state * list nat :=
+  if impl_ok then
+    let '(st', ok) := step T sp st o in
+    (st', if ok then [] else [1%nat])
   else
-    let m := map hrow_of (dsk st) in
-    (if N.of_nat (length m) =? o_nrows o then [] else [2%nat])
-    ++ (if forallb (fun r => existsb (hrow_eqb (norm r)) m) (o_changed o) then [] else [3%nat])
-    ++ (if existsb (fun s => existsb (fun r => hslot_eqb s (h_path r, h_key r)) m) (o_deleted o) then [4%nat] else [])
-    ++ (match o_full o with
-        | None => []
-        | Some f => if (length f =? length m)%nat && forallb (fun r => existsb (hrow_eqb (norm r)) m) f
-                    then [] else [5%nat]
-        end)
-    ++ (if forallb well_formed (o_changed o)
-           && match o_full o with Some f => forallb well_formed f | None => true end
-        then [] else [6%nat])
-    ++ (if no_disk_op op0 && negb (match o_changed o, o_deleted o with [], [] => true | _, _ => false end)
-        then [7%nat] else []).
+    match o with
+    | OUnlock _ => (fst (step T sp st (OUnlock false)), [])
+    | _ => (st, [])
+    end.
 
 Fixpoint check_events (i : nat) (st : state) (l : tcase) : list (nat * nat) :=
   match l with
   | [] => []
   | (o, ob) :: l' =>
-    let '(st', ok) := step TaintSites.wo_strips_taproot st o in
-    map (fun c => (i, c)) (check_obs o st' ok ob) ++ check_events (S i) st' l'
+    let '(st', c1) := follow TaintSites.table TaintSites.wo_strips_taproot st o (o_ok ob) in
+    map (fun c => (i, c)) (c1 ++ check_obs o st' ob) ++ check_events (S i) st' l'
   end.
 
 Definition check_case (c : tcase) : list (nat * nat) := check_events 0 init c.
@@ -188,7 +217,12 @@ Fixpoint failures_from (i : nat) (l : list tcase) : list (nat * nat * nat) :=
 
 Definition failures := failures_from 0.
 
-(** what the model expects to remain sealed under a private-class key after
-    a conversion (compared through the complete dump; exposed for the evidence) *)
-Definition model_residue (h : list op) : list hrow :=
-  map hrow_of (filter (fun r => negb (clean_row r)) (dsk (run TaintSites.wo_strips_taproot h))).
+(** what the model expects to remain sealed with private content after a
+    conversion (exposed for the evidence) *)
+Definition model_residue (h : list op) : list fact :=
+  filter (fun f => content_private (f_content f))
+         (disk_facts (dsk (run TaintSites.table TaintSites.wo_strips_taproot h))).
+
+(** the reader of the sealing sites found every site of the source safe *)
+Definition source_sites_ok : bool :=
+  forallb (fun '(_, l, e) => source_entry_ok l e) TaintSites.source_entries.
